@@ -12,6 +12,10 @@ var props = []*common.Prop{
 		Gen:    func(r *simrt.Rand, tier string, idx int) interface{} { return genHTTPCase(r, tier) },
 		Run:    runHTTP,
 		Shrink: shrinkHTTP, Exclude: excludeHTTP},
+	{ID: "C14", New: func() interface{} { return &WSCase{} },
+		Gen:    func(r *simrt.Rand, tier string, idx int) interface{} { return genWSCase(r, tier) },
+		Run:    runWS,
+		Shrink: shrinkWS},
 }
 
 func TestWorker(t *testing.T) { common.WorkerMain(t, props) }
